@@ -400,6 +400,7 @@ func c13ImplS(z0 int64, ops []int64) []int64 {
 		return -2
 	}
 	out := []int64{}
+	var fusedAll []int64
 	for i := 0; i+3 < len(ops); i += 4 {
 		code, a, b := ops[i], ops[i+2], ops[i+3]
 		node := func(x int64) (*listz.SNode[int], bool) {
@@ -425,6 +426,26 @@ func c13ImplS(z0 int64, ops []int64) []int64 {
 			l.PushFront(int(a))
 			reg(l.Front())
 		case 7:
+			// PushBack immediately followed by an unbounded All(): in every other such pair the push is made from INSIDE the walk,
+			// while it visits the last node (the work-queue idiom: range over the list, append work while processing the
+			// tail).  The walk follows the live links, so it must end with the pushed value, exactly what All() after the
+			// push yields; the All op that follows is answered with this walk.
+			if i+7 < len(ops) && ops[i+4] == 16 && ops[i+6] == 0 && (i/4)%2 == 0 && l.Len() > 0 {
+				n0 := l.Len()
+				var w []int64
+				for v := range l.All() {
+					w = append(w, int64(v))
+					if len(w) == n0 {
+						l.PushBack(int(a))
+						reg(l.Back())
+					}
+					if len(w) >= c13MaxWalk {
+						return []int64{HANG}
+					}
+				}
+				fusedAll = w
+				break
+			}
 			l.PushBack(int(a))
 			reg(l.Back())
 		case 8:
@@ -480,6 +501,12 @@ func c13ImplS(z0 int64, ops []int64) []int64 {
 			}
 			out = append(out, PutList(w)...)
 		case 16:
+			if fusedAll != nil {
+				out = append(out, PutList(fusedAll)...)
+				fusedAll = nil
+				heldS = l.All()
+				break
+			}
 			var w []int64
 			seqS := l.All()
 			if (i/4)%2 == 0 {
